@@ -4,6 +4,8 @@
 #include <cstdio>
 #include <cstdint>
 #include <cstdlib>
+#include <string>
+#include <utility>
 #include <vector>
 #include <new>
 #include "detail/align.hpp"
@@ -52,8 +54,38 @@ static void buckets(int pol, ull min_elem, ull max_node, bool thorough)
     }
 }
 
+// The functions defined in the library's .cpp files, called BEFORE main from the constructor of a namespace-scope object of this
+// translation unit (it is linked in front of the library archive, so its initialiser runs before the library's): a pure function
+// answers the same at any time. The answers are printed as ordinary `arith` lines, i.e. compared with the translated definitions.
+struct EarlyCalls
+{
+    std::vector<std::pair<std::string, ull>> lines;
+    EarlyCalls()
+    {
+        static const ull xs[] = {1, 2, 3, 4, 6, 8, 12, 16, 24, 32, 40, 48, 64, 96, 100, 255, 256, 4096, 1ull << 40};
+        for (ull x : xs)
+        {
+            lines.push_back({"arith alignment_for " + std::to_string(x), (ull)alignment_for(x)});
+            lines.push_back({"arith log2_index_from_size " + std::to_string(x), (ull)log2_access_policy::index_from_size(x)});
+            if (x < 64)
+                lines.push_back({"arith log2_size_from_index " + std::to_string(x), (ull)log2_access_policy::size_from_index(x)});
+            lines.push_back({"arith identity_index_from_size " + std::to_string(x), (ull)identity_access_policy::index_from_size(x)});
+            lines.push_back({"arith small_chunk_count " + std::to_string(x), (ull)small_free_memory_list::chunk_count(x)});
+            if (x <= 256)
+            {
+                lines.push_back({"arith free_min_block_size " + std::to_string(x) + " 7", (ull)free_memory_list::min_block_size(x, 7)});
+                lines.push_back({"arith ordered_min_block_size " + std::to_string(x) + " 7", (ull)ordered_free_memory_list::min_block_size(x, 7)});
+                lines.push_back({"arith small_min_block_size " + std::to_string(x) + " 300", (ull)small_free_memory_list::min_block_size(x, 300)});
+            }
+        }
+    }
+};
+static EarlyCalls early_calls;
+
 int main(int argc, char** argv)
 {
+    for (auto& l : early_calls.lines)
+        std::printf("%s => %llu\n", l.first.c_str(), l.second);
     bool thorough = argc > 1 && std::atoi(argv[1]) > 0;
     if (argc > 2)
         rng_state ^= std::strtoull(argv[2], nullptr, 10) * 0x9E3779B97F4A7C15ull;
